@@ -13,42 +13,42 @@ CLAIMED = {
             'trusts the stand-alone single-property 3D/2D call of a twin world as the model; histories are finite samples biased to partial-key collisions (sibling points sharing a depth or a position, clamped shallow depths, layered water worlds); at most three worlds alive per process',
             'DESIGN.md section 4, C01'),
     'C03': ('runtime monitoring: reference-model monitor (closed-form background state evaluated next to the real code) over generated worlds and points through the 3D and the 2D entry points, on the ASan+UBSan build',
-            'exploration: held on the sampled worlds/points (thousands of points far outside every feature and every sampled point with tag -1, both coordinate systems, random global constants); forced surface temperature checked at depth 0 for every batching',
+            'exploration: held on the sampled worlds/points (thousands of points far outside every feature and every sampled point with tag -1, both coordinate systems, random global constants); forced surface temperature checked at depth 0 for every batching; 320 single-feature worlds per quick run where C04's exact footprint oracles decide "outside" right next to the boundary',
             'the generator\'s truth record decides which points are far outside every feature (near the features the 3D tag -1 does); tolerance 1e-12 relative on the adiabat; a fault of the 2D mapping that keeps points outside every feature is invisible here (C09 sees it)',
             'DESIGN.md section 4, C03'),
     'C16': ('runtime monitoring: differential monitor - the same command stream through the native World, the C API and wrapper_cpp in one process, bit equality; file-system observation of create_world\'s output directory',
-            'exploration: held on the executed call streams (corpus incl. random-model worlds and generated worlds, all create_world argument combinations sampled); output vectors are allocated with exactly the announced size so ASan catches a wrapper that writes more',
+            'exploration: held on the executed call streams (corpus incl. random-model worlds and generated worlds, all create_world argument combinations sampled, file names with blanks next to decoy files); output vectors are allocated with exactly the announced size so ASan catches a wrapper that writes more',
             'native World is the reference; Fortran/Python wrappers are not built in this image; only relative output directories are used',
             'DESIGN.md section 4, C16'),
-    'C09': ('runtime monitoring: differential monitor - properties(2D) against properties(3D) at the point mapped per the property statement (mapping re-implemented in the checker), margin rule for discontinuities, on the ASan+UBSan build',
-            'exploration: held on the sampled sections/points (hundreds of worlds with random cross sections in both coordinate systems, thousands of compared calls with random property lists; 2D calls on worlds without cross section must throw)',
+    'C09': ('runtime monitoring: differential monitor - properties(2D) against properties(3D) at the point mapped per the property statement (mapping re-implemented in the checker), a companion world with another cross section asked at the same 2D point right before half of the calls, margin rule for discontinuities, on the ASan+UBSan build',
+            'exploration: held on the sampled sections/points (hundreds of worlds with random cross sections in both coordinate systems, thousands of compared calls with random property lists; 2D calls on worlds without cross section must throw, also at the surface with the temperature alone and a forced surface temperature)',
             'tolerances 1e-6 K / 1e-9 after the margin rule (a disagreement is excused only if the tag changes or the value jumps within 1 mm of the point); spherical velocity projection is unspecified and not compared',
             'DESIGN.md section 4, C09'),
-    'C19': ('runtime monitoring: reference-model monitors - brute-force / exact-arithmetic oracles evaluated next to the real kernels (kd-tree, polygon test incl. exhaustive small lattices, Bezier trench curve, coordinate conversions, great-circle distance), on the ASan+UBSan build',
+    'C19': ('runtime monitoring: reference-model monitors - brute-force / exact-arithmetic oracles evaluated next to the real kernels (kd-tree, polygon test incl. exhaustive small lattices, Bezier trench curve incl. collinear trenches and queries on normals through coordinates, coordinate conversions incl. the centre and subnormal norms, great-circle distance), on the ASan+UBSan build',
             'exploration: held on ~10^6 kernel evaluations per quick run (exhaustive for all simple polygons with 3-5 vertices on 3x3/4x4 lattices, 5x5 in the thorough tier; random otherwise)',
-            'integer-arithmetic polygon oracle; Bezier oracle is a 4000-samples-per-segment brute force over the library\'s own curve evaluation with golden-section refinement; feet within 1 % of the trench ends are outside the quantifier; far-field and two-point-trench solver failures are known findings',
+            'integer-arithmetic polygon oracle; Bezier oracle is a 4000-samples-per-segment brute force over the library\'s own curve evaluation with golden-section refinement; feet within 1 % of the trench ends are outside the quantifier; far-field, two-point-trench and collinear-trench solver failures are known findings',
             'DESIGN.md section 4, C19'),
     'C04': ('runtime monitoring: reference-model monitor - exact rational polygon x depth-interval oracle and a plume reference built from the property statement, evaluated next to the real code on single-feature worlds (ASan+UBSan build)',
             'exploration: held on ~3x10^4 points per quick run (cartesian: exact incl. boundary lattice points and the floating point neighbours of min/max depth; spherical: clear-margin points incl. the +-360 alias; plumes incl. head and continuation)',
             'world files carry numbers with <= 12 significant digits so that rapidjson parses them exactly; spherical boundary points and degenerate ellipses are excluded',
             'DESIGN.md section 4, C04'),
     'C06': ('runtime monitoring: reference-model monitor - independent planar slab/fault construction (straight lines and arcs) compared with World::distance_to_plane and the tag on generated straight-trench worlds (ASan+UBSan build)',
-            'exploration: held on ~5x10^4 points per quick run over hundreds of geometries (any azimuth/dip side, 1-4 segments, overturned dips, arcs, min depth > 0, truncations); tolerance 1e-3 m',
+            'exploration: held on ~5x10^4 points per quick run over hundreds of geometries (any azimuth/dip side, 1-4 segments, overturned dips, arcs, kinks, min depth > 0, truncations, short bodies that thicken strongly down dip); tolerance 1e-3 m',
             'ambiguous reference points (junction wedges, ties, beyond the centre of curvature, trench ends) are skipped and counted; spherical worlds are judged against the statement and the known non-orthonormal frame is recognised by its exact signature',
             'DESIGN.md section 4, C06'),
     'C05': ('runtime monitoring: reference-model monitor (closed forms written from the parameter documentation, evaluated next to the real code on single-model worlds) plus metamorphic sentinel-equivalence families, on the ASan+UBSan build',
-            'exploration: held on ~3x10^4 interior points per quick run covering every listed model x feature type pair (listed in the evidence), both coordinate systems, sentinels and model ranges narrower/wider than the feature; 1e-12 relative (1e-9 for series and distance-encoded values)',
+            'exploration: held on ~3x10^4 interior points per quick run covering every listed model x feature type pair (listed in the evidence), both coordinate systems, sentinels, model ranges narrower/wider than the feature, model and feature depth bounds as affine surfaces, a base composition model in front of the model under test; 1e-12 relative (1e-9 for series and distance-encoded values)',
             'reference formulas are the checker\'s reading of the documentation (half-space/plate series, Chapman, Gaussian with r^2 = ellipse fraction, tanh profile of the smooth models); slab/fault linear sentinels and grains of unlisted compositions in line features are not judged',
             'DESIGN.md section 4, C05'),
     'C11': ('runtime monitoring: invariant monitors on Objects::Surface called directly (listed value at nodes, nodal bounds, affine exactness) and world-level probes of area features and of their temperature / composition / velocity models whose min/max depth is given at points (the value painted by the owner of the surface present/absent just above/below the expected depth), on the ASan+UBSan build',
-            'exploration: held on ~1.6x10^4 probes per quick run (hundreds of triangulations incl. collinear triples, spherical alias, corners with a zero coordinate, base-value and default corners)',
+            'exploration: held on ~1.6x10^4 probes per quick run (hundreds of triangulations incl. collinear triples, spherical alias, corners with a zero coordinate, base-value and DBL_MAX default corners, the base entry anywhere in the list)',
             'interior interpolated values are only bounded (the triangulation is left open by the property); 1e-10 relative for barycentric rounding; two input classes are known findings (approx(0,0), DBL_MAX default corners)',
             'DESIGN.md section 4, C11'),
     'C20': ('runtime monitoring: envelope / monotonicity / boundary-attainment monitors over depth profiles and away-from-ridge profiles of cooling models (oceanic half space, plate, constant-age plate; linear models; slab mass conserving and plate model), on the ASan+UBSan build',
-            'exploration: held on ~4x10^4 probes per quick run (ages from metres off the ridge axis to 300 Myr, both coordinate systems, all slab shapes of the C06 generator below 85 degrees dip)',
+            'exploration: held on ~4x10^4 probes per quick run (ages from metres off the ridge axis to 300 Myr, slab ages from under a million years, both coordinate systems, all slab shapes of the C06 generator below 85 degrees dip, probes at the slab tip)',
             'an envelope, not an equality: a wrong profile that stays inside it and keeps the monotonicities passes (C05 covers the oceanic formulas); excursions bounded by the analytic truncation bound of the 100-term series are a known finding',
             'DESIGN.md section 4, C20'),
-    'C02': ('runtime monitoring: metamorphic + compositional monitor - per stack of overlapping features the world, every single-feature and single-model world and deletion/move variants are queried in one process; locality by bit equality, tag of the last covering feature, and a fold of measured isolated model values through the declared operations (ASan+UBSan build)',
+    'C02': ('runtime monitoring: metamorphic + compositional monitor - per stack of overlapping features the world, every single-feature and single-model world and deletion/move variants are queried in one process; locality by bit equality, tag of the last covering feature (by name, and that name = the declared tag or the model name), and a fold of measured isolated model values through the declared operations (ASan+UBSan build)',
             'exploration: held on ~4x10^3 points per quick run over 100 stacks of 2-6 features (~30 worlds each) covering every feature type and operation; the fold oracle needs no knowledge of any model formula',
             'coverage is decided by the code\'s own single-feature answer (tag != -1); stacks containing the mass conserving model (reads the value painted so far) take part in locality/tag only; velocity is not part of the property',
             'DESIGN.md section 4, C02'),
@@ -60,28 +60,28 @@ CLAIMED = {
             'exploration: held on ~2.6x10^4 paired world queries and ~4.8x10^3 ridge kernel calls per quick run (all feature and model types, curved trenches, sections, depth surfaces, ridges incl. short oblique ones at the date line; any rotation/translation up to 1e7 m; longitude offsets moving footprints across the date line, incl. +-360)',
             'tolerances sit one order above the measured noise floor of the trench closest-point solver (relative 1e-8): 1e-6 K + 1e-7 relative, 1e-7 for compositions/grains; plume azimuth ties (exactly 180 degrees apart) are avoided; velocity is not compared',
             'DESIGN.md section 4, C08'),
-    'C10': ('runtime monitoring: metamorphic monitor - families of files that place the same models at feature / section / segment level (bit-identical answers), and pairs of worlds differing in the section of one coordinate (bit-identical answers outside the neighbouring sections, convexity and attainment of section values), section of the trench foot taken from the library\'s own closest-point kernel (ASan+UBSan build)',
+    'C10': ('runtime monitoring: metamorphic monitor - families of files that place the same models at feature / section / segment level (bit-identical answers), and pairs of worlds differing in the section of one coordinate (bit-identical answers outside the neighbouring sections, convexity, attainment of section values, linear combination at the trench fraction on collinear trenches, model lists per section), section of the trench foot taken from the library\'s own closest-point kernel (ASan+UBSan build)',
             'exploration: held on ~10^4 points per quick run over 60 five-file families and 80 override pairs (2-6 coordinates, straight and gently curved trenches, slabs and faults, both coordinate systems)',
             'interpolated quantities are observed through temperature, composition, thickness, length and top truncation; angles only indirectly; the 20 % margin around section boundaries is not judged',
             'DESIGN.md section 4, C10'),
     'C17': ('runtime monitoring: differential monitor at the process boundary - stdout of the sanitizer build of gwb-dat on generated data files parsed by header and compared column by column with the %g rendering of the library values obtained through the monitor process',
-            'exploration: held on ~3x10^3 printed rows per quick run (dim 2/3, 0-5 compositions, 0-4 grain compositions x 0-5 grains, convert spherical, separators, comment lines of every length, malformed rows) over corpus and generated worlds',
+            'exploration: held on ~3x10^3 printed rows per quick run (dim 2/3, 0-5 compositions, 0-4 grain compositions x 0-5 grains, convert spherical (with spherical and cartesian worlds), separators, comment lines of every length, malformed rows, random-model worlds, the consistency-check flag) over corpus and generated worlds',
             'only what is printed (6 significant digits) is compared; two header/column defects pinned by golden logs are known findings recognised by their exact signature',
             'DESIGN.md section 4, C17'),
     'C18': ('runtime monitoring: reference-model monitor at the process boundary - the ASCII VTU files of the sanitizer build of gwb-grid parsed and compared with an independent mesh generator (node set, logical cells, depth), with library values through the monitor process, and with the tag rule for the filtered / by-tag files',
-            'exploration: held on ~150 tool runs per quick run (cartesian/chunk 2D/3D, annulus, sphere; 1-40 cells per direction; several -j; --filtered/--by-tag), ~5x10^4 node comparisons',
+            'exploration: held on ~150 tool runs per quick run (cartesian/chunk 2D/3D, annulus, sphere; 1-40 cells per direction; several -j; --filtered/--by-tag; option lines in any order; every VTU output format), ~5x10^4 node comparisons',
             'sphere meshes are checked structurally (shell radii, face sharing, volumes) rather than node by node; the binary VTU formats are decoded through their own headers and offsets and compared with the ASCII file; the highest-tag rule of the filters is taken from the source',
             'DESIGN.md section 4, C18'),
-    'C14': ('runtime monitoring with ThreadSanitizer: multi-threaded stress harness in the monitor process (2-32 threads behind a barrier, shared query pool) with every concurrent answer compared bitwise against the single threaded answer; gwb-grid under TSan/ASan for a range of -j (fixed list plus counts chosen relative to the node count of small grids: n-1, n, n+1, around n/2) with byte comparison of all VTU files; detector self-test on the known engine race of a random-model world',
+    'C14': ('runtime monitoring with ThreadSanitizer: multi-threaded stress harness in the monitor process (2-32 threads behind a barrier, shared query pool; C++ API and, for a third of the worlds, properties_2d/3d of the C interface) with every concurrent answer compared bitwise against the single threaded answer; gwb-grid under TSan/ASan for a range of -j (fixed list plus counts chosen relative to the node count of small grids: n-1, n, n+1, around n/2) with byte comparison of all VTU files; detector self-test on the known engine race of a random-model world',
             'exploration: held on ~2x10^5 concurrent calls per quick run (up to 32 simultaneously open calls observed) over 30 worlds and ~90 gwb-grid runs; ThreadSanitizer generalises the observed interleavings by happens-before',
             'only interleavings that happened (plus TSan\'s happens-before closure) are covered; at most 32 library threads and -j 128; worlds with random models are excluded by the property',
             'DESIGN.md section 4, C14'),
-    'C15': ('runtime monitoring: history + executable model - five instances of a random-model world (twin, other seed, seed entry) driven by the same interleaved history (3D and 2D entry points, velocity blocks anywhere in the lists) in one process, bit comparison call by call; invariant monitors on every returned grain set (proper rotation, size rules) and random composition (bounds), on the ASan+UBSan build',
+    'C15': ('runtime monitoring: history + executable model - five instances of a random-model world (twin, other seed, seed entry) driven by the same interleaved history (3D and 2D entry points, velocity blocks anywhere in the lists) in one process, bit comparison call by call, a third of the worlds replayed alone in a fresh process; invariant monitors on every returned grain set (proper rotation, size rules) and random composition (bounds), on the ASan+UBSan build',
             'exploration: held on ~6x10^3 interleaved calls per quick run over 120 single-feature worlds of every feature type offering a random model (1-200 grains, deflected and plain distributions, both coordinate systems)',
             'statistical uniformity is not a property and not tested; seeds congruent modulo 2^32 are the same mt19937 seed and are not required to differ',
             'DESIGN.md section 4, C15'),
     'C13': ('runtime monitoring with sanitizers: generated and corpus worlds queried on the ASan+UBSan(+float-cast-overflow) build at a catalogue of degenerate locations derived from each world\'s truth record; every returned value checked for finiteness, crashes/aborts/hangs routed through the crash matcher',
-            'exploration: held on ~2.7x10^4 queries per quick run (~2.3x10^4 on a degenerate locus: vertices, edges, depth bounds and their floating point neighbours, trench line, slab tip, poles, date line with both zero signs, planet centre, surface at/below min depth); thorough adds magnitudes up to 1e12',
+            'exploration: held on ~2.7x10^4 queries per quick run (~2.3x10^4 on a degenerate locus: vertices, edges, depth bounds and their floating point neighbours, trench line, slab tip, poles, date line with both zero signs, planet centre, surface at/below min depth, models pinching out to zero local thickness, the fore-arc wedge above a slab with a spline model under a cold plate); thorough adds magnitudes up to 1e12',
             'a finite sample of a continuum targeted at the loci the code special-cases; a reproducible watchdog firing is the only notion of non-termination',
             'DESIGN.md section 4, C13'),
     'C12': ('runtime monitoring with sanitizers: World construction (plus a fixed battery of queries) on the ASan+UBSan build for documents generated from the JSON schema the built library itself emits (adversarial list lengths and numbers), single-fault schema violations and unsupported option values of valid files (cross-checked with python jsonschema), and formatting variants (bit-identical answers); thorough adds libFuzzer on raw bytes and a valgrind memcheck replay',
